@@ -411,16 +411,25 @@ pub fn ntru_gen(
 
         let f_ntt = f.map(|&i| Felt::new(i)).fft();
         if f_ntt.coefficients.iter().any(|e| e.is_zero()) {
+            #[cfg(feature = "verif-hooks")]
+            crate::verif::emit(crate::verif::Event::NtruCandidate {
+                verdict: 1,
+                gamma: 0.0,
+            });
             continue;
         }
         let gamma = gram_schmidt_norm_squared(&f, &g);
         if gamma > 1.3689f64 * (Q as f64) {
+            #[cfg(feature = "verif-hooks")]
+            crate::verif::emit(crate::verif::Event::NtruCandidate { verdict: 2, gamma });
             continue;
         }
 
         if let Some((capital_f, capital_g)) =
             ntru_solve_entrypoint(f.map(|&i| i as i32), g.map(|&i| i as i32))
         {
+            #[cfg(feature = "verif-hooks")]
+            crate::verif::emit(crate::verif::Event::NtruCandidate { verdict: 0, gamma });
             return (
                 f,
                 g,
@@ -428,6 +437,8 @@ pub fn ntru_gen(
                 capital_g.map(|&i| i as i16),
             );
         }
+        #[cfg(feature = "verif-hooks")]
+        crate::verif::emit(crate::verif::Event::NtruCandidate { verdict: 3, gamma });
     }
 }
 
@@ -487,6 +498,28 @@ fn gram_schmidt_norm_squared(f: &Polynomial<i16>, g: &Polynomial<i16>) -> f64 {
     let gamma2 = norm_f_over_ffgg_squared + norm_g_over_ffgg_squared;
 
     f64::max(gamma1, gamma2)
+}
+
+#[cfg(feature = "verif-hooks")]
+pub(crate) fn verif_gen_poly(n: usize, rng: &mut dyn RngCore) -> Vec<i16> {
+    gen_poly(n, rng).coefficients
+}
+
+#[cfg(feature = "verif-hooks")]
+pub(crate) fn verif_gram_schmidt_norm_squared(f: &[i16], g: &[i16]) -> f64 {
+    gram_schmidt_norm_squared(&Polynomial::new(f.to_vec()), &Polynomial::new(g.to_vec()))
+}
+
+#[cfg(feature = "verif-hooks")]
+pub(crate) fn verif_ntru_solve(f: &[BigInt], g: &[BigInt]) -> Option<(Vec<BigInt>, Vec<BigInt>)> {
+    ntru_solve(&Polynomial::new(f.to_vec()), &Polynomial::new(g.to_vec()))
+        .map(|(a, b)| (a.coefficients, b.coefficients))
+}
+
+#[cfg(feature = "verif-hooks")]
+pub(crate) fn verif_ntru_solve_entrypoint(f: &[i32], g: &[i32]) -> Option<(Vec<i32>, Vec<i32>)> {
+    ntru_solve_entrypoint(Polynomial::new(f.to_vec()), Polynomial::new(g.to_vec()))
+        .map(|(a, b)| (a.coefficients, b.coefficients))
 }
 
 #[cfg(test)]
